@@ -2825,8 +2825,9 @@ void mmd_engine_update_metavalue_for_key(mmd_engine * e, const char * key, const
 	for (int i = 0; i < e->metadata_stack->size; ++i) {
 		m = stack_peek_index(e->metadata_stack, i);
 
-		if (strcmp(clean, m->key) == 0) {
-			// We have a match
+		if ((start == -1) && (strcmp(clean, m->key) == 0)) {
+			// We have a match (the first one, which is also the one a lookup returns,
+			// if the key is written more than once)
 			start = m->start;
 		} else if (start != -1) {
 			// We have already found a match
